@@ -215,7 +215,12 @@ class SidemanticAdapter(BaseAdapter):
         }
 
         if graph.metrics:
-            data["metrics"] = [self._export_metric(metric, graph) for metric in graph.metrics.values()]
+            # time_comparison / conversion metrics of a model are also registered at graph level by
+            # add_model(); they are exported with their model and registered again when it is loaded
+            model_metric_ids = {id(m) for model in graph.models.values() for m in model.metrics}
+            graph_metrics = [metric for metric in graph.metrics.values() if id(metric) not in model_metric_ids]
+            if graph_metrics:
+                data["metrics"] = [self._export_metric(metric, graph) for metric in graph_metrics]
 
         if graph.parameters:
             data["parameters"] = [self._export_parameter(parameter) for parameter in graph.parameters.values()]
